@@ -21,6 +21,7 @@ import itertools
 import json
 import multiprocessing as mp
 import os
+import time
 
 from . import common, tlc, tlaval
 from .common import REPO
@@ -261,12 +262,12 @@ SKELETONS = {'block': SKEL_BLOCK, 'mod': SKEL_MOD, 'multi': SKEL_MULTI, 'longmod
 
 ALL_HEADERS = ['block', 'modification', 'from', 'to', 'from blocks', 'to blocks', 'from nodes', 'to nodes', 'from edges',
                'to edges', 'mapping', 'reference atoms', 'macros', 'molecule', 'nosuch']
-EDIT_LINES = [L('ffa'), L('zzz'), L('GLY'), L('XXX'), L('!X#7'), L('GLY#3 ALA'), L('CT'), L('N BB'), L('N BB', w=2),
+EDIT_LINES = [L('CA CA'), L('ffa'), L('zzz'), L('GLY'), L('XXX'), L('!X#7'), L('GLY#3 ALA'), L('CT'), L('N BB'), L('N BB', w=2),
               L('ZZ BB'), L('GLY:N GLY#1:BB'), L('NOID:N BB'), L('$R'), L('$U'), L('R ALA'), L('P', {'tag': 'p'}),
               L('!A9', {'resid': 9}), L('BB CA'), L('A1:P A2:P'), L('N CA BB'), L('B13:X')]
 EDIT_MENU = [H(h) for h in ALL_HEADERS] + EDIT_LINES
-EDIT_MENU_QUICK = [H(h) for h in ('block', 'modification', 'from blocks', 'to nodes', 'mapping', 'macros', 'nosuch')] + \
-    [L('GLY'), L('XXX'), L('!X#7'), L('N BB', w=2), L('ZZ BB'), L('NOID:N BB'), L('$U'), L('P', {'tag': 'p'}), L('BB CA')]
+EDIT_MENU_QUICK = [H(h) for h in ('block', 'modification', 'from blocks', 'mapping', 'macros', 'nosuch')] + \
+    [L('CA CA'), L('GLY'), L('XXX'), L('!X#7'), L('N BB', w=2), L('ZZ BB'), L('NOID:N BB'), L('$U'), L('P', {'tag': 'p'}), L('BB CA')]
 
 ENUM_MENU = [H(h) for h in ('block', 'modification', 'to blocks', 'to nodes', 'macros', 'nosuch')] + [L('!X'), L('P')]
 ENUM_MENU_THOROUGH = ENUM_MENU + [H('mapping'), H('from blocks'), L('X:P'), L('!Y#2')]
@@ -366,9 +367,15 @@ def thaw_file(f):
     return [dict(l, toks=[dict(t) for t in l['toks']], json=dict(l['json'], extra=sorted(map(list, l['json']['extra'])))) for l in f]
 
 
-def _replay_chunk(states):
-    n, bad, unspec, cases = 0, [], 0, []
-    for st in states:
+def _replay_chunk(args):
+    """Parse the dumped states of one chunk (raw text), render each file, load it, compare."""
+    bodies, wanted = args
+    n, bad, unspec, cases, kept, nload = 0, [], 0, [], {}, 0
+    for body in bodies:
+        st = tlaval.parse_state_body(body)
+        key = json.dumps(thaw_file(st['file']), sort_keys=True)
+        if key in wanted:
+            kept[key] = st
         outcome, exp_out, exp_lib = expected_of_state(st)
         if outcome == 'unspecified':
             unspec += 1
@@ -376,9 +383,10 @@ def _replay_chunk(states):
         text = render(st['file'])
         got = load_real(text)
         n += 1
+        nload += outcome == 'loaded'
         why = ''
         if got['outcome'] != outcome:
-            why = 'model outcome %s, reader %s %s' % (outcome, got['outcome'], got.get('exc', ''))
+            why = 'model outcome %s (line %d), reader %s %s' % (outcome, st['st']['n'], got['outcome'], got.get('exc', ''))
         elif outcome == 'loaded':
             why = compare(exp_out, exp_lib, got)
         if why:
@@ -387,25 +395,35 @@ def _replay_chunk(states):
         ncontent = sum(1 for l in st['file'] if not l['h'])
         if nopen >= 2 or (nopen >= 1 and ncontent >= 2):
             cases.append(text)
-    return n, bad, unspec, cases
+    return n, bad, unspec, cases, kept, nload
 
 
-def final_states(res):
+_STATE_HDR = __import__('re').compile(r'^State \d+:\n', __import__('re').M)
+
+
+def final_bodies(res):
+    """Raw text of the dumped states in which a file has been read to its end (distinct files only)."""
+    with open(res.dump_path) as fh:
+        chunks = _STATE_HDR.split(fh.read())[1:]
     seen, out = set(), []
-    for st in res.states():
-        if st['st']['outcome'] == 'reading' or st['phase'] == 'start':
+    for body in chunks:
+        if 'phase = "start"' in body or 'outcome |-> "reading"' in body:
             continue
-        key = json.dumps(thaw_file(st['file']), sort_keys=True)
-        if key in seen:
+        if body in seen:
             continue
-        seen.add(key)
-        out.append(st)
+        seen.add(body)
+        out.append(body)
     return out
 
 
-def run_model(name, start_tla, menu, max_extra, ffs_tla, trace_file='', timeout=1800):
+def final_states(res):
+    return [tlaval.parse_state_body(b) for b in final_bodies(res)]
+
+
+def run_model(name, skeletons, edit_menu, nedits, menu, max_extra, ffs_tla, trace_file='', timeout=1800):
     res = tlc.run('MappingFile', CFG, consts={'FF': ffs_tla, 'MacroRef': MACROREF, 'Menu': set_tla(line_tla(l) for l in menu),
-                                             'MaxExtra': str(max_extra), 'StartFiles': start_tla,
+                                             'MaxExtra': str(max_extra), 'Skeletons': set_tla(file_tla(f) for f in skeletons),
+                                             'EditMenu': set_tla(line_tla(l) for l in edit_menu), 'NEdits': str(nedits),
                                              'TraceFile': tlaval.to_tla(trace_file)},
                   dump=True, timeout=timeout)
     if res.violated:
@@ -413,20 +431,30 @@ def run_model(name, start_tla, menu, max_extra, ffs_tla, trace_file='', timeout=
     return res
 
 
-def replay_states(states, ev, vd, label):
-    parts = common.chunks(states, tlc.NCPU * 2)
+def replay_states(res, ev, vd, label, wanted=()):
+    bodies = final_bodies(res)
+    parts = common.chunks(bodies, tlc.NCPU * 2)
     with mp.Pool(tlc.NCPU) as pool:
-        outs = pool.map(_replay_chunk, parts)
-    unspec = 0
-    for n, bad, u, cases in outs:
+        outs = pool.map(_replay_chunk, [(p, set(wanted)) for p in parts])
+    unspec, kept, total, loaded = 0, {}, 0, 0
+    for n, bad, u, cases, k, nl in outs:
+        total += n
+        loaded += nl
         ev.traces += n
         ev.evaluations += n
         unspec += u
+        kept.update(k)
         for b in bad:
             vd.violation('replay-mismatch', b, '%s: %s' % (label, b['why']))
         for c in cases:
             ev.nontrivial_case(['mapping', c])
-    return unspec
+    if loaded == 0 or loaded == total:
+        raise tlc.MachineryError('%s: vacuous family (%d files compared, %d of them loadable)' % (label, total, loaded))
+    return unspec, kept
+
+
+def skel_key(f):
+    return json.dumps(thaw_file(f), sort_keys=True)
 
 
 # ------------------------------------------------------------------ shipped files
@@ -498,11 +526,13 @@ def shipped_part(quick, ev, vd):
     if quick:
         allff -= {'charmm'}       # the charmm force field takes 3 s to load: its mapping files are judged in the thorough tier
     keep = [i for i, u in enumerate(used) if u[0] <= allff]
+    if not keep:
+        raise tlc.MachineryError('no shipped .mapping file to judge')
     ffs = real_force_fields(allff)
     names = set().union(*[used[i][1] for i in keep]) if keep else set()
     work = tlc.scratch('c13m_')
     tf = tlc.write_json(work, 'shipped.json', [abstract[i] for i in keep])
-    res = run_model('shipped', '{}', [], 0, ff_const(ffs, names), trace_file=tf)
+    res = run_model('shipped', [], [], 0, [], 0, ff_const(ffs, names), trace_file=tf)
     ev.add_tlc('TRACE MappingFile on %d shipped .mapping files' % len(keep), res)
     by_file = {}
     for st in final_states(res):
@@ -602,7 +632,7 @@ def _history_one(args):
 def history_part(quick, by_text, ev, vd):
     expected = {}
     for name in ('longmod', 'block', 'mod'):
-        st = by_text.get(json.dumps(thaw_file(SKELETONS[name]), sort_keys=True))
+        st = by_text.get(skel_key(SKELETONS[name]))
         if st is None:
             raise tlc.MachineryError('no TLC state for skeleton %s' % name)
         outcome, exp_out, exp_lib = expected_of_state(st)
@@ -633,52 +663,62 @@ def run_part(tier, seed, ev, vd):
     quick = tier == 'quick'
     ev.rule += (' .mapping: non-trivial = file with >= 2 mappings or a mapping with >= 2 content lines, distinct by text; '
                 'load history: interleaving with >= 2 different files.')
+    ev.assumptions = [a for a in ev.assumptions if 'bound only through the shared section-header rule' not in a]
     ev.assumptions += [
+        '.map weights are modelled (MapFile); the .mapping director is modelled line by line (MappingFile)',
         '.mapping: files the documented grammar does not cover are generated but not compared (outcome "unspecified" in '
         'spec/MappingFile.tla): identifier redefined in one direction, atoms '
         'added by hand before a fetched block, blocks of two force fields on one side, an unknown section without content, '
         'edge attributes, non-integer weights (the reader only accepts integers although its docstring says float | int)',
         '.mapping: the attributes of fetched blocks are those of the force-field objects the file is loaded against (exported '
         'as the constant FF)']
-    ffs_tla = ff_const(build_ffs())
+    t0, times = time.time(), {}
+    ffs = build_ffs()
+    got = {n: (sorted(ff.blocks), sorted(ff.modifications)) for n, ff in ffs.items()}
+    want = {'ffa': (['ALA', 'DI', 'GLY'], ['CT']), 'ffb': (['ALA', 'GLY'], ['CT'])}
+    if got != want:          # the .ff reader itself is broken: the files of this part cannot be judged against these force fields
+        vd.violation('replay-mismatch', {'part': 'mapping', 'family': 'synthetic force fields', 'text': (FFA_TEXT + FFB_TEXT).splitlines()},
+                     'synthetic .ff files loaded as %r, declared %r' % (got, want))
+        return
+    ffs_tla = ff_const(ffs)
     # 1. all line sequences over a small structural menu
     menu = ENUM_MENU if quick else ENUM_MENU_THOROUGH
-    res = run_model('enumeration', '{<<>>}', menu, 5 if quick else 6, ffs_tla)
+    res = run_model('enumeration', [[]], [], 0, menu, 5 if quick else 6, ffs_tla)
     ev.add_tlc('MC MappingFile (all sequences <= %d lines over %d lines)' % (5 if quick else 6, len(menu)), res)
-    states = final_states(res)
-    unspec = replay_states(states, ev, vd, '.mapping enumeration')
+    unspec, _ = replay_states(res, ev, vd, '.mapping enumeration')
+    times['enumeration'] = round(time.time() - t0, 1)
     # 2. one edit of each skeleton
     emenu = EDIT_MENU_QUICK if quick else EDIT_MENU
-    start = 'Edits(%s, %s, 1)' % (set_tla(file_tla(f) for f in SKELETONS.values()), set_tla(line_tla(l) for l in emenu))
-    res = run_model('edits', start, [], 0, ffs_tla)
+    res = run_model('edits', SKELETONS.values(), emenu, 1, [], 0, ffs_tla)
     ev.add_tlc('TAB MappingFile (4 skeleton files, one edit: insert any of %d lines anywhere / delete / truncate)' % len(emenu), res)
-    states = final_states(res)
-    unspec += replay_states(states, ev, vd, '.mapping skeleton edit')
-    ev.extra['mapping_files_outside_grammar_not_compared'] = unspec
-    by_text = {json.dumps(thaw_file(st['file']), sort_keys=True): st for st in states}
-    st = by_text[json.dumps(thaw_file(SKEL_MOD), sort_keys=True)]
+    u, by_text = replay_states(res, ev, vd, '.mapping skeleton edit', wanted=[skel_key(f) for f in SKELETONS.values()])
+    unspec += u
+    st = by_text.get(skel_key(SKEL_MOD))
+    if st is None or st['st']['outcome'] != 'loaded':
+        raise tlc.MachineryError('skeleton file "mod" is not a loadable file in the model')
     ev.sample({'kind': '.mapping skeleton replayed', 'text': render(SKEL_MOD)[:12] + ['...'],
                'expected_first_mapping': expected_mapping(st['st']['out'][0])})
     if not quick:
-        # two edits with the reduced menu on the two shorter skeletons
-        start = 'Edits(%s, %s, 2)' % (set_tla(file_tla(SKELETONS[k]) for k in ('block', 'longmod')),
-                                     set_tla(line_tla(l) for l in EDIT_MENU_QUICK[:10]))
-        res = run_model('edits2', start, [], 0, ffs_tla, timeout=3000)
+        # two edits with a reduced menu on the two shorter skeletons
+        res = run_model('edits2', [SKEL_BLOCK, SKEL_LONGMOD], EDIT_MENU_QUICK[:10], 2, [], 0, ffs_tla, timeout=3000)
         ev.add_tlc('TAB MappingFile (2 skeleton files, two edits)', res)
-        unspec += replay_states(final_states(res), ev, vd, '.mapping two edits')
+        unspec += replay_states(res, ev, vd, '.mapping two edits')[0]
+    ev.extra['mapping_files_outside_grammar_not_compared'] = unspec
+    times['edits'] = round(time.time() - t0, 1)
     # 3. load history
     history_part(quick, by_text, ev, vd)
+    times['history'] = round(time.time() - t0, 1)
     # 4. shipped files
     shipped_part(quick, ev, vd)
+    times['shipped'] = round(time.time() - t0, 1)
+    ev.extra['mapping_part_elapsed_s'] = times
 
 
 def selftest_part(seed):
     ffs_tla = ff_const(build_ffs())
-    start = set_tla([file_tla(SKEL_BLOCK), file_tla(SKEL_MULTI)])
-    res = run_model('selftest', start, [], 0, ffs_tla)
-    states = final_states(res)
-    by_text = {json.dumps(thaw_file(st['file']), sort_keys=True): st for st in states}
-    st = by_text[json.dumps(thaw_file(SKEL_BLOCK), sort_keys=True)]
+    res = run_model('selftest', [SKEL_BLOCK, SKEL_MULTI], [], 0, [], 0, ffs_tla)
+    by_text = {skel_key(st['file']): st for st in final_states(res)}
+    st = by_text[skel_key(SKEL_BLOCK)]
     outcome, exp_out, exp_lib = expected_of_state(st)
     got = load_real(render(SKEL_BLOCK))
     assert outcome == 'loaded' and compare(exp_out, exp_lib, got) == '', compare(exp_out, exp_lib, got)
@@ -691,7 +731,7 @@ def selftest_part(seed):
     t['out'].insert(0, t['out'][0])
     r2 = compare(exp_out, exp_lib, t)
     # tamper 3: dictionary keeps the FIRST of two mappings with one key
-    st = by_text[json.dumps(thaw_file(SKEL_MULTI), sort_keys=True)]
+    st = by_text[skel_key(SKEL_MULTI)]
     outcome, exp_out, exp_lib = expected_of_state(st)
     got = load_real(render(SKEL_MULTI))
     assert compare(exp_out, exp_lib, got) == ''
